@@ -86,6 +86,12 @@ type FuncSpec struct {
 	CallAssumes []*CallAssume // ASSUMPTIONS made at direct calls to named callees (unchecked; reported in the evidence)
 }
 
+type GlobalFact struct {
+	Key     string
+	PkgPath string
+	Cl      *Clause
+}
+
 // CallAssume: "callsite <callee> assumes [label:] <expr over a0.. and, optionally, r0>". The condition is assumed
 // before the call when it mentions only arguments, after it when it mentions the result.
 type CallAssume struct {
@@ -119,6 +125,7 @@ type SpecSet struct {
 	Funcs    map[string]*FuncSpec
 	Pures    map[string]*PureFn // key pkgpath.name
 	TypeInvs []*TypeInv
+	GlobalFacts []*GlobalFact
 	NonNil   map[string]bool // pkgpath.global
 	Frozen   map[string]bool
 	Files    []string
@@ -453,6 +460,23 @@ func (ss *SpecSet) LoadSpecFile(path, pkgPath string) error {
 			fs := strings.Fields(rest)
 			if len(fs) < 2 {
 				return fmt.Errorf("%s: bad global decl", where)
+			}
+			if fs[0] == "fact" {
+				// global fact <var>: <expr>   — ASSUMED content of a package variable that is written only by
+				// its package initialiser (the write-once part is checked mechanically, the content is not)
+				r := strings.TrimSpace(strings.TrimPrefix(strings.TrimSpace(rest), "fact"))
+				i := strings.Index(r, ":")
+				if i < 0 {
+					return fmt.Errorf("%s: bad global fact", where)
+				}
+				name := strings.TrimSpace(r[:i])
+				cl, err := mk(strings.TrimSpace(r[i+1:]))
+				if err != nil {
+					return err
+				}
+				ss.GlobalFacts = append(ss.GlobalFacts, &GlobalFact{Key: pkgPath + "." + name, PkgPath: pkgPath, Cl: cl})
+				cur, curLoop = nil, nil
+				continue
 			}
 			for _, g := range fs[1:] {
 				k := g
